@@ -382,7 +382,8 @@ ADDED = {
            "object is handed back; every schedule is replayed through the model. Theorems C03_*_under_attack: against the "
            "sequence-of-worlds attacker the parent descriptor of every mutation was below the root at some moment.",
     "C06": " A lookup below /proc/self or /proc/thread-self whose symlink is itself visibly over-mounted must fail with EXDEV "
-           "(no fallback to another spelling of the base).",
+           "(no fallback to another spelling of the base). A FIFO nobody writes to over a procfs file: lookups with blocking flags "
+           "are timed under an alarm (a resolver that opens the over-mounted object for I/O before checking the mount blocks).",
     "C07": " Final-component table (Props/C07_Table.lean), for every procfs tree, base, sub-path and flag set: open is the open(2) "
            "of the trailing entry itself with O_NOFOLLOW (a link: the link object with O_PATH, ELOOP without, ENOTDIR with "
            "O_DIRECTORY), readlink is the body of the trailing entry itself (EINVAL for a non-link), open_follow returns exactly "
